@@ -217,3 +217,17 @@ Definition fully_initialised (cls : string) : bool :=
             (map Z.of_nat (seq 0 (Z.to_nat size)))
   | None => false
   end.
+
+(* ---------- payload-level wrappers (C11 / C12) ----------
+   The typed payload classes expose every Header accessor again (`CanPayload::getId()` ...). The translator lists every method of an
+   outer payload class that shares its name with a method of the class' Header record, with the Header method it purely forwards to
+   ("" when its body is anything else than `[return] getHeader()->m(params...)`). Each must forward to the Header method of the same
+   name - so everything proved about the Header accessors holds for the API the user calls. Two wrappers differ by design:
+   CAN-FD's 21-bit CRC is the Header's crcSbc field. *)
+Definition wrapper_ok (w : string * string * string) : bool :=
+  let '(name, got, want) := w in
+  String.eqb got want ||
+  (String.eqb name "ASAM::CMP::CanFdPayload::getCrc" && String.eqb got "ASAM::CMP::CanPayloadBase::Header::getCrcSbc") ||
+  (String.eqb name "ASAM::CMP::CanFdPayload::setCrc" && String.eqb got "ASAM::CMP::CanPayloadBase::Header::setCrcSbc").
+Definition wrappers_ok : bool := forallb wrapper_ok gen_wrappers.
+Definition bad_wrappers : list (string * string * string) := filter (fun w => negb (wrapper_ok w)) gen_wrappers.
